@@ -13,7 +13,8 @@ RULE = ("every function of the closed scope list (35 functions of tx/props/sat/i
         "argument of add_subcircuit/fill_blackbox) x lint-clean circuits from lib.rand_dag (1-3 inputs, 1-6 gates, constants), about half "
         "of them with 1-3 blackbox instances of 1-3 types (ff, ffr, ffe, ff2: nested and non-nested pin sets, instances of one type "
         "share the BlackBox object); the argument is built with all attributes, on a user graph without `output` attributes "
-        "(Circuit(graph=g)) or through the fast Verilog reader; arguments of the call drawn at "
+        "(Circuit(graph=g)) or through the fast Verilog reader; some non-pin nodes carry escaped Verilog identifiers (\\bus[0], \\u1/n3 ...: "
+        "60% of the cases of the Verilog writers and their callers, 12% elsewhere); arguments of the call drawn at "
         "random (node names incl. a non-existent one for the raise paths, subsets, flags, a second circuit or the same object twice for "
         "miter); every call followed by 4-6 random edits (add/remove node, attribute change, edge, registry entry, name) of every result "
         "and then of every argument; non-trivial = argument with >= 3 nodes; distinct = (function, circuit, parameters)")
@@ -38,6 +39,7 @@ NO_BB = {"tx.ternary", "tx.miter", "tx.unroll", "tx.sensitization_transform", "t
          "tx.supergates", "props.influence", "props.avg_sensitivity", "props.sensitivity", "props.sensitize", "io.circuit_to_bench",
          "tx.subcircuit", "props.signal_probability"}
 NEED_BB = {"tx.sequential_unroll"}
+ESCAPED = {"io.circuit_to_verilog", "io.to_file", "tx.syn", "tx.aig", "utils.visualize"}
 SAT = {"props.influence", "props.avg_sensitivity", "props.sensitivity", "props.sensitize", "props.signal_probability",
        "sat.construct_solver", "sat.cnf", "sat.solve", "sat.approx_model_count", "sat.model_count"}
 
@@ -77,7 +79,7 @@ def splice_bb(rng, d, inst, bbname):
 def gen_circuit(rng, fn, big):
     sat = fn in SAT
     d = lib.rand_dag(rng, rng.randint(1, 3), rng.randint(1, 4 if sat else (9 if big else 6)), max_fanin=3, p_const=0.3)
-    p_bb = 0.9 if fn in NEED_BB else 0.2 if fn in NO_BB else 0.5
+    p_bb = 0.9 if fn in NEED_BB else 0.4 if fn == "props.influence" else 0.2 if fn in NO_BB else 0.5
     if rng.random() < p_bb:
         r = rng.random()
         if r < (0.1 if fn in NEED_BB else 0.3):
@@ -95,6 +97,15 @@ def gen_circuit(rng, fn, big):
                 types[1] = rng.choice(loose if loose and rng.random() < 0.7 else others)
             for i, t in enumerate(types):
                 d = splice_bb(rng, d, f"u{i}", t)
+    # escaped Verilog identifiers (leading backslash) for some non-pin nodes: the Verilog writer treats them specially
+    if rng.random() < (0.6 if fn in ESCAPED else 0.12):
+        plain = [n[0] for n in d["nodes"] if "." not in n[0]]
+        pool = ["\\bus[0]", "\\bus[1]", "\\u1/n3", "\\a+b", "\\net$7"]
+        rng.shuffle(pool)
+        ren = dict(zip(rng.sample(plain, min(len(plain), rng.randint(1, 3))), pool))
+        for n in d["nodes"]:
+            n[0] = ren.get(n[0], n[0])
+            n[3] = sorted(ren.get(f, f) for f in n[3])
     d["name"] = rng.choice(["top", "m1", "circuit"])
     # how the argument is built: node by node with every attribute (lib.build_circuit), on a user graph whose non-output
     # nodes carry no `output` attribute (Circuit(graph=g)), or by writing Verilog and reading it back with the fast reader
@@ -151,6 +162,8 @@ def gen_case(rng, fn, tier):
             case["m"], case["n"], case["flag"] = best, rng.choice(sorted(cone(best))), True
             if fn != "tx.sensitization_transform":
                 case["n"], case["flag"] = best, False
+    if fn == "props.influence" and rng.random() < 0.5:
+        case["k"] = 3                      # supergates=True: the path that goes through tx.supergates (which rejects blackboxes)
     if fn == "tx.miter":
         r = rng.random()
         case["second"] = "none" if r < 0.35 else "same" if r < 0.55 else "other"
@@ -213,7 +226,9 @@ def _call(cg, fn, c, case, others, tmp):
     if fn == "sat.solve": return sat.solve(c, assumptions={n: flag} if k > 1 else None)
     if fn == "sat.approx_model_count": return sat.approx_model_count(c, assumptions={n: flag} if k > 1 else None, use_xor_clauses=(k == 3))
     if fn == "sat.model_count": return sat.model_count(c, assumptions={n: flag} if k > 1 else None)
-    if fn == "io.to_file": return cg.io.to_file(c, f"{tmp}/out.{'v' if k < 3 else 'bench'}", fmt=["verilog", "bench", "other"][k % 3], behavioral=flag)
+    if fn == "io.to_file":
+        fmt = "verilog" if k != 2 else ("bench" if flag else "other")
+        return cg.io.to_file(c, f"{tmp}/out.{'bench' if fmt == 'bench' else 'v'}", fmt=fmt, behavioral=flag)
     if fn == "io.circuit_to_verilog": return cg.io.circuit_to_verilog(c, behavioral=flag)
     if fn == "io.circuit_to_bench": return cg.io.circuit_to_bench(c)
     if fn == "utils.visualize": return cg.utils.visualize(c, f"{tmp}/out.png")
